@@ -58,7 +58,7 @@ def run(tier):
                                                    "C11_SMAX": str(smax), "C11_DMAX": str(dmax), "C11_INITIAL": str(initial)}, req))
         meta.append(("routing", h, e, first))
     # the claim (both tiers): these slices must all be confirmed
-    base_tmo = 420 if tier == "quick" else 600
+    base_tmo = 600 if tier == "quick" else 750
     add(0, 1), add(1, 1)
     for st in range(2):
         add(0, 2, estep=st, smax=1, dmax=1)
